@@ -286,6 +286,16 @@ deliver_data = Spec(
             z3.Not(c.truthy(c.oldv('_encoding'), c.old_state)),
             z3.And(z3.BoolVal(len(c.events('decode')) == 1),
                    *[e[1][0].z == c.arg('data') for e in c.events('decode')])))),
+        # the peer can only send what the window allows: the window is charged for this delivery and restored to
+        # the initial window as soon as it falls below half of it - this depends on the RECEIVE window only, never
+        # on the state of our send side (a local write_eof() half-close must not starve the peer's remaining data)
+        ('window-charged-and-replenished-below-half', lambda c: z3.If(
+            2 * (c.old('_recv_window') - z3.Length(c.arg('data'))) < c.old('_init_recv_window'),
+            c.new('_recv_window') == c.old('_init_recv_window'),
+            c.new('_recv_window') == c.old('_recv_window') - z3.Length(c.arg('data')))),
+        ('window-adjust-sent-exactly-when-replenishing', local_only('SSHChannel._deliver_data', lambda c: z3.BoolVal(
+            len(c.events('adjust')) == 1) == (2 * (c.old('_recv_window') - z3.Length(c.arg('data'))) <
+                                              c.old('_init_recv_window')))),
         ('buffer-untouched', lambda c: c.new('_recv_buf') == c.old('_recv_buf')),
         ('callback-can-only-pause', lambda c: z3.Or(
             newp(c) == oldp(c),
@@ -1082,6 +1092,60 @@ process_window_adjust = Spec(
             z3.Not(z3.Or(*[c.old('_recv_state') == sv(x) for x in ADJUST_ACCEPTED])),
             unchanged(c, '_send_window', *SEND_FIELDS)),
         'PacketDecodeError': lambda c: z3.And(adjust_malformed(c), unchanged(c, '_send_window', *SEND_FIELDS))})
+
+
+# ---- SSHClientProcess.communicate: "collect everything until the process exits" must keep the data flowing
+# While communicate() waits for the channel to close the application reads nothing itself: the buffer limit is
+# lifted, and reading must be enabled at that point - had a full window of output already paused reading, a reader
+# left paused means the peer's window is never reopened and the rest of its data never arrives.
+PROC_FIELDS = {'_limit': 'int', '_read_paused': 'bool', '_recv_buf_len': 'int', '_chan': 'opt[obj:ProcChan]',
+               'ghost_pws': 'bool'}      # ghost_pws: bool(self._paused_write_streams), a redirect target is paused
+
+
+def proc_resume_stub(cx):
+    """_maybe_resume_reading() as proved in C19 (Spec maybe_resume): resumes iff paused and _should_pause_reading()
+    is false = not (a paused redirect target or (limit set and reached)); then _read_paused is cleared"""
+    cond = z3.And(cx.selff('_read_paused').z,
+                  z3.Not(_c19_should_pause()(cx.selff('_limit').z, cx.selff('_recv_buf_len').z,
+                                            cx.selff('ghost_pws').z)))
+    return [Out(ret=VBool(True), sets={'_read_paused': VBool(False)}, assume=[cond], event=('resumed', ())),
+            Out(ret=VBool(False), assume=[z3.Not(cond)])]
+
+
+proc_resume_stub.modifies = ('_read_paused',)
+
+
+def _c19_should_pause():
+    from . import c19
+    return c19.should_pause_z
+
+
+def wait_closed_stub(cx):
+    cx.require('reading-enabled-while-waiting-for-the-process-to-exit',
+               z3.Or(z3.Not(cx.selff('_read_paused').z), cx.selff('ghost_pws').z))
+    cx.require('buffer-limit-lifted-while-waiting', cx.selff('_limit').z == 0)
+    return [Out(event=('wait_closed', ()))]
+
+
+wait_closed_stub.modifies = ()
+
+communicate = Spec(
+    PROP, 'process', 'SSHClientProcess.communicate', self_class='SSHClientProcess',
+    params=dict(input='opt[bytes]'),
+    classes={'SSHClientProcess': PROC_FIELDS, 'ProcChan': {}},
+    stubs={'self._maybe_resume_reading': proc_resume_stub, 'self._chan.write': noop('write'),
+           'self._chan.write_eof': noop('write_eof'), 'self.wait_closed': wait_closed_stub,
+           'self.collect_output': ret('any', 'output')},
+    requires=lambda c: z3.Not(c.is_none(c.oldv('_chan'))),
+    ensures=[
+        ('reading-not-left-paused-by-the-lifted-limit', lambda c: z3.And(
+            c.new('_limit') == 0, z3.Or(z3.Not(c.new('_read_paused')), c.old('ghost_pws')))),
+        ('input-written-then-eof-before-waiting', lambda c: z3.BoolVal(
+            [e[0] for e in c.events() if e[0] in ('write', 'write_eof', 'wait_closed')] in
+            (['write', 'write_eof', 'wait_closed'], ['wait_closed']))),
+    ],
+    returns='any')
+communicate.no_replay = True       # coroutine of a class with a heavy constructor: no native cross-check
 
 
 # ====================================================================== the stream API on top of data_received
